@@ -369,6 +369,9 @@ func (s *SpokFile) findClosestMatch(task string) string {
 // If a spokfile is found, it's absolute path will be returned
 // typical usage will make start = $CWD and stop = $HOME.
 func Find(logger logger.Logger, start, stop string) (string, error) {
+	// However it is spelled (a trailing slash in $HOME, a "/./" in the middle), stop names one
+	// directory: compare against its clean form, which is what climbing with filepath.Dir produces
+	stop = filepath.Clean(stop)
 	for {
 		verifhook.Point("find.iter", start)
 		logger.Debug("Looking in %s for spokfile", start)
